@@ -188,7 +188,7 @@ def describe_row(r):
             'rule': r['crit'][0] if r['crit'] else None}
 
 
-PURE_BUILTINS = {'len', 'struct.calcsize', 'struct.pack', 'bytes', 'bytearray', 'int', 'str', 'min', 'max', 'abs', 'sum', 'list', 'tuple', 'ord', 'chr', 'bool'}
+PURE_BUILTINS = {'isinstance', 'issubclass', 'getattr', 'hasattr', 'type', 'callable', 'len', 'struct.calcsize', 'struct.pack', 'bytes', 'bytearray', 'int', 'str', 'min', 'max', 'abs', 'sum', 'list', 'tuple', 'ord', 'chr', 'bool'}
 BUILTIN_METHODS = {'encode', 'decode', 'to_bytes', 'lower', 'upper', 'strip', 'lstrip', 'rstrip', 'join', 'split', 'hex', 'format', 'items', 'keys', 'values', 'ljust', 'rjust', 'zfill'}
 STRUCTURAL = {'var', 'at', 'bin', 'un', 'cmp', 'bool', 'ifexp', 'mul', 'tablesize', 'accum', 'comp', 'list', 'tuple', 'star', 'size-of-list', 'item', 'lv', 'havoc', 'const',
               'slice', 'res', 'sym'}
@@ -293,8 +293,9 @@ def check_conservation(report, pa, rule, expect_label_writes):
                 hidden = opaque_atoms(pa.facts, L) or [t for t, pol, _ in path.conds if IS_havoc(t)]
             if hidden:
                 # a difference made of terms the size algebra does not see through is no disproof
-                raise AnalysisError('{}: on the path [{}] the bytes an item contributes ({}) and the bytes emitted ({}) are not comparable: {} is not followed'.format(
+                report.undecided('{}: on the path [{}] the bytes an item contributes ({}) and the bytes emitted ({}) are not comparable: {} is not followed'.format(
                     fname, path.cond_text()[-100:], r['consumed'], r['appended'], show(hidden[0])[:100]))
+                continue
             report.fail(Finding(rule + '.conserve', fname, where,
                                 'on the path [{}] the item contributes {} bytes to the label table but {} bytes are emitted and later '
                                 'labels move by {}: labels after it no longer equal the byte offset'.format(
